@@ -420,9 +420,89 @@ def phase_b(task, col):
     col.samples.append({'__b__': out})
 
 
+def large_case(task, col):
+    """Settings with more connection sets than the eager limit (1000), which take the selector into its later stages
+    ('3_all', enumerating encoders).  Too large for the brute-force reference: the oracle for a decoded matrix is the
+    library's own validate_matrix (decided by C09), plus range, fixed point and no exception."""
+    import adsg_core.optimization.assign_enc.matrix as mx
+    from adsg_core.optimization.assign_enc.selector import EncoderSelector
+    which = task['which']
+    rnd = gen.rng_for('c12large', task['seed'], which)
+    if which % 3 == 0:      # derangements of 7: one-to-one, diagonal excluded (1854 sets)
+        n_ = 7
+        src = [mx.Node([1], repeated_allowed=False) for _ in range(n_)]
+        tgt = [mx.Node([1], repeated_allowed=False) for _ in range(n_)]
+        settings = mx.MatrixGenSettings(src, tgt, excluded=[(src[i], tgt[i]) for i in range(n_)])
+        name = 'derangements_7'
+    elif which % 3 == 1:    # 4 optional-amount sources onto 4 single-connection targets (choose a source per target, 4^4..)
+        src = [mx.Node(min_conn=0, repeated_allowed=False) for _ in range(5)]
+        tgt = [mx.Node([1], repeated_allowed=False) for _ in range(5)]
+        settings = mx.MatrixGenSettings(src, tgt)
+        name = 'assign_5_to_5'
+    else:                   # permutations of 6 with one excluded pair
+        src = [mx.Node([1], repeated_allowed=False) for _ in range(6)]
+        tgt = [mx.Node([1], repeated_allowed=False) for _ in range(6)]
+        settings = mx.MatrixGenSettings(src, tgt, excluded=[(src[0], tgt[1])])
+        name = 'permutations_6_excl'
+    col.evaluations += 1
+    col.count('monitor_large_settings')
+    gen_ = mx.AggregateAssignmentMatrixGenerator(settings)
+    spec_ = {'large': name}
+    try:
+        n_mat = gen_.count_all_matrices()
+        sel = EncoderSelector(settings)
+        sel.encoding_timeout = 60
+        mgr = sel.get_best_assignment_manager(cache=True)
+        col.count('large_stage_' + str(sel._last_selection_stage))
+        mgr_warm = EncoderSelector(settings).get_best_assignment_manager(cache=True)
+    except Exception as e:  # noqa
+        info = D.exc_info(e)
+        col.violation('selection_failed', spec_, {'exc': info, 'via': 'large'}, [],
+                      where={'exc': info['type'], 'site': info['site'], 'via': 'large',
+                             'starved': 'Cannot find best encoder' in info['msg']})
+        return
+    col.nontrivial.add('large|' + name)
+    for label, m_ in (('cold', mgr), ('warm', mgr_warm)):
+        dvs = [int(dv.n_opts) for dv in m_.design_vars]
+        if [int(dv.n_opts) for dv in mgr.design_vars] != dvs:
+            col.violation('cached_result_differs_from_fresh_computation', spec_, {'cold': str(mgr.encoder),
+                                                                                  'warm': str(m_.encoder)}, [],
+                          where={'same_encoder': str(mgr.encoder) == str(m_.encoder), 'via': 'large'})
+        for _ in range(150):
+            x = [rnd.randrange(n) for n in dvs]
+            col.count('monitor_selected_coding_evaluations')
+            try:
+                x1, act, mat = m_.get_matrix(np.array(x, dtype=int))
+                x1 = [int(v) for v in x1]
+                bad = None
+                if not gen_.validate_matrix(np.array(mat)):
+                    bad = 'selected_coding_decodes_invalid_matrix'
+                elif any(not (0 <= v < n) for v, n in zip(x1, dvs)):
+                    bad = 'selected_coding_vector_out_of_range'
+                else:
+                    x2, _a2, mat2 = m_.get_matrix(np.array(x1, dtype=int))
+                    if [int(v) for v in x2] != x1 or not np.array_equal(np.array(mat2), np.array(mat)):
+                        bad = 'selected_coding_not_idempotent'
+                if bad:
+                    col.violation(bad, spec_, {'x': x, 'x1': x1, 'encoder': str(m_.encoder), 'via': 'large_' + label,
+                                               'n_matrices': int(n_mat)}, [],
+                                  where={'encoder': type(m_.encoder).__name__, 'via': 'large'})
+                    return
+            except Exception as e:  # noqa
+                info = D.exc_info(e)
+                col.violation('selected_coding_exception', spec_, {'x': x, 'exc': info, 'encoder': str(m_.encoder),
+                                                                   'via': 'large_' + label, 'n_matrices': int(n_mat)}, [],
+                              where={'exc': info['type'], 'site': info['site'], 'encoder': type(m_.encoder).__name__,
+                                     'via': 'large'})
+                return
+
+
 def worker(task, col):
     from adsg_core.optimization.assign_enc.selector import EncoderSelector
     M.Tap(EncoderSelector, 'get_best_assignment_manager', counter=col.count)
+    if task.get('kind') == 'large':
+        large_case(task, col)
+        return
     if task.get('replay'):
         v = task['replay']['violation']
         cs = v['spec']
@@ -459,6 +539,8 @@ def main(run):
         ta = []
         for t, d in zip(shards, dirs):
             ta.append(dict(t, kind='a', _cache_dir=d))
+        for k in range(3 if quick else 6):
+            ta.append({'kind': 'large', 'which': k, 'shard': 9000 + k, 'lo': 0, 'hi': 0, 'seed': run.seed})
         run.map(ta, timeout=3400)
         tb = []
         for t, d in zip(shards, dirs):
